@@ -34,13 +34,12 @@ impl Prop for C16 {
     }
     fn strategy(&self, _tier: Tier) -> BoxedStrategy<Case> {
         (
-            gen::enc_env(gen::addr7().boxed()),
-            gen::enc_call(true, true, true),
+            gen::enc_pair(gen::addr7().boxed(), gen::enc_call(true, true, true)),
             prop_oneof![3 => Just(0u16), 2 => Just(1u16), 1 => Just(2u16), 3 => 0u16..=64],
             1u8..=255,
             1u8..=255,
         )
-            .prop_map(|(env, call, extra, poison_a, x)| {
+            .prop_map(|((env, call), extra, poison_a, x)| {
                 let mut poison_b = poison_a ^ x;
                 if poison_b == 0 {
                     poison_b = poison_a ^ 0xFF;
